@@ -3,7 +3,128 @@ import GnpyModel
 /- driver handlers for property C04 (ops are named "c04.<name>") -/
 open Lean
 namespace Gnpy.Drv.C04
+open Gnpy.Edfa
 
-def handlers : List (String × Handler) := []
+def negInf : Float := -(1.0 / 0.0)
+
+/-- an extended-dB noise figure as a float (`none` = `-inf`) -/
+def jNf (x : Option Float) : Json := jF (x.getD negInf)
+
+def getModel (j : Json) : R (NfModel Float) := do
+  let k ← fStr j "kind"
+  if k == "variable_gain" then
+    return .variableGain (← fF j "nf1") (← fF j "nf2") (← fF j "delta_p")
+  else if k == "fixed_gain" then return .fixedGain (← fF j "nf0")
+  else if k == "openroadm" then return .openroadm (← fList getF j "coef")
+  else if k == "openroadm_preamp" then return .openroadmPreamp
+  else if k == "openroadm_booster" then return .openroadmBooster
+  else if k == "advanced_model" then return .advanced (← fList getF j "coef")
+  else throw s!"unknown nf model {k}"
+
+def getStage (j : Json) : R (Stage Float) := do
+  return { model := ← getModel (← fld j "model"), gainMin := ← fF j "gain_min", gainFlatmax := ← fF j "gain_flatmax" }
+
+def getAmpNf (j : Json) : R (AmpNf Float) := do
+  let k ← fStr j "kind"
+  if k == "single" then return .single (← getStage (← fld j "stage"))
+  else if k == "dual" then return .dual (← getStage (← fld j "pre")) (← getStage (← fld j "boost"))
+  else throw s!"unknown amp nf kind {k}"
+
+def getAmp (j : Json) : R (Amp Float) := do
+  return { fMin := ← fNat j "fmin", fMax := ← fNat j "fmax", gainFlatmax := ← fF j "gain_flatmax",
+           pMax := ← fF j "p_max", nf := ← getAmpNf (← fld j "nf"), dgt := ← fList getF j "dgt",
+           gainRipple := ← fList getF j "gain_ripple", nfRipple := ← fList getF j "nf_ripple" }
+
+def getOper (j : Json) : R (Oper Float) := do
+  return { gain := ← fF j "gain", tilt := ← fF j "tilt", inVoa := ← fOpt getF j "in_voa", outVoa := ← fF j "out_voa" }
+
+def getChan (j : Json) : R (Chan Float) := do
+  match ← getArr j with
+  | [f, s, b, p] => return { f := ← getNat f, slot := ← getNat s, baud := ← getF b, p := ← getF p }
+  | _ => throw "channel = [f, slot, baud, p]"
+
+def jOut (o : Out Float) : Json :=
+  jObj [("kept", jList jNat o.kept), ("pin_db", jF o.pinDb), ("eff", jF o.effGain), ("att_in", jF o.attIn),
+        ("nf", jList jNf o.nf), ("ase", jList jF o.ase), ("gprofile", jList jF o.gprofile),
+        ("margin", jF o.margin), ("pch", jList jF o.pch), ("pout_db", jF o.poutDb)]
+
+/-- one or several consecutive calls of the same amplifier object: the effective gain is carried over -/
+def callH (j : Json) : R Json := do
+  let a ← getAmp (← fld j "amp")
+  let o ← getOper (← fld j "oper")
+  let seqs ← fList (getList getChan) j "calls"
+  let mut g := o.gain
+  let mut outs : List Json := []
+  for cs in seqs do
+    match call a { o with gain := g } cs with
+    | none => outs := outs ++ [Json.null]
+    | some r =>
+      g := r.effGain
+      outs := outs ++ [jOut r]
+  return Json.arr outs.toArray
+
+def fabs (x : Float) : Float := Float.abs x
+
+/-- one crossing of a Multiband_amplifier: per-amplifier outputs in amplifier order (null where an amplifier
+received no channel), or {"error"} when none did -/
+def multiH (j : Json) : R Json := do
+  let amps ← fList getAmp j "amps"
+  let opers ← fList getOper j "opers"
+  let cs ← fList getChan j "chans"
+  match multiCall (amps.zip opers) cs with
+  | none => return jObj [("error", jStr "ValueError")]
+  | some _ => return jObj [("outs", Json.arr ((amps.zip opers).map (fun ao => jOpt jOut (call ao.1 ao.2 cs))).toArray)]
+
+def estimateH (j : Json) : R Json := do
+  let gmin ← fF j "gmin"
+  let gmax ← fF j "gmax"
+  let nfmin ← fF j "nfmin"
+  let nfmax ← fF j "nfmax"
+  let c := estCore gmin gmax nfmin nfmax
+  -- distance of every thresholded quantity to its threshold (class D guard), following the order of the checks
+  let m0 := [fabs (nfmin + 10.0), fabs (nfmax + 10.0)]
+  let m1 := [fabs (c.nf1 - 4.0), fabs (c.nf2raw - (c.nf1 + 0.3)), fabs (c.nf2raw - (c.nf1 + 2.0))]
+  let m2 := if c.inRange then [] else [fabs (c.dp - 1.0), fabs (c.dp - 11.0)]
+  let m3 := [fabs (fabs (nfmin - c.calcMin) - 0.01), fabs (fabs (nfmax - c.calcMax) - 0.01)]
+  let r := estimateNfModel gmin gmax nfmin nfmax
+  let relevant := match r with
+    | .error .nfMin => [m0.head!]
+    | .error .nfMax => m0
+    | .error .zeroDiv => m0
+    | .error .firstCoil => m0 ++ [m1.head!]
+    | .error .deltaP => m0 ++ m1 ++ m2
+    | .error .calcMin => m0 ++ m1 ++ m2 ++ [m3.head!]
+    | _ => m0 ++ m1 ++ m2 ++ m3
+  let margin := relevant.foldl (fun a b => if b < a then b else a) 1.0
+  let base := [("margin", jF margin), ("clipped", jBool (!c.inRange))]
+  match r with
+  | .error e => return jObj (base ++ [("err", jStr e.toString)])
+  | .ok (n1, n2, dp) => return jObj (base ++ [("nf1", jF n1), ("nf2", jF n2), ("delta_p", jF dp)])
+
+/-- `_calc_nf(True)` at a given effective gain and load (what `edfa_nf` uses) -/
+def nfH (j : Json) : R Json := do
+  let a ← getAmpNf (← fld j "nf")
+  let ld : Load Float := { pinDb := ← fF j "pin_db", nch := ← fF j "nch", slotWidth := ← fF j "slot_width" }
+  let (nf, pad) := ampNfAvg a ld (← fF j "gain")
+  return jObj [("nf", jNf nf), ("att_in", jF pad)]
+
+def fromJsonH (j : Json) : R Json := do
+  let td ← fOpt getStr j "type_def"
+  let keys ← fList getStr j "keys"
+  let dual ← fOpt (getList getF) j "dual_gain_mins"
+  match fromJsonKind td (fun k => keys.contains k) (← fBool j "has_cfg") (← fOpt getStr j "est") with
+  | .ok k =>
+    match dual with
+    | some [g, gp] => if k == "dual_stage" && !dualStageOk g gp then return jObj [("err", jStr "EquipmentConfigError")]
+                      else return jObj [("ok", jStr k)]
+    | _ => return jObj [("ok", jStr k)]
+  | .error e => return jObj [("err", jStr e)]
+
+def clampH (j : Json) : R Json := do
+  return jF (callSeq (← fF j "set") (← fF j "p_max") (← fList getF j "pins"))
+
+def handlers : List (String × Handler) :=
+  [("c04.call", callH), ("c04.estimate", estimateH), ("c04.nf", nfH), ("c04.fromjson", fromJsonH),
+   ("c04.clamp", clampH), ("c04.multi", multiH)]
 
 end Gnpy.Drv.C04
